@@ -40,7 +40,7 @@ func init() {
 		Level:       "Static rules deciding named necessary conditions (no un-clamped look-ahead into the decompressed block, every access behind num < numDocs, the visitor's result alone controls the loop, writers and reader use the same block size). Partial: grouping/order of values and the re-encode arithmetic are value properties and not decided.",
 		Explanation: "LOOKAHEAD-CLAMP enumerates every []byte slice expression whose upper bound is offset+constant and requires the bound to be clamped by a comparison with len/cap of the same buffer (siblings copyStoredDocs and getDocStoredOffsets are both covered); VISIT-GUARD proves by dominance that every read and every visitor call in visitDocument is behind num < footer.numDocs and that the loop variable is defined only by the visitor's result; BLOCK-SELECT folds the constant passed to newChunkedDocumentCoder by both writers and the reader's divisor and requires them equal. ITER-SCRATCH shows that on every path through one document iteration the meta buffer is Reset and the data slice restarted before the record is added; SCRATCH-OWNED covers the decompression buffers.",
 		NotCovered:  "grouping and order of delivered values, correctness of the merge re-encode and of the byte-copy path arithmetic",
-		Uses:        []RuleUse{{"ITER-SCRATCH", ""}, {"SCRATCH-OWNED", ""}, {"LOOKAHEAD-CLAMP", ""}, {"VISIT-GUARD", ""}, {"BLOCK-SELECT", ""}, {"STORED-OFFSET-SOURCE", ""}, {"BLOCK-CURSOR", ""}, {"LOOP-BOUND-AGREE", ""}, {"RESET-COMPLETE", ""}, {"ESCAPE-FRESH", ""}},
+		Uses:        []RuleUse{{"APPEND-RESULT-USED", ""}, {"TRAILER-ROLES", ""}, {"ITER-SCRATCH", ""}, {"SCRATCH-OWNED", ""}, {"LOOKAHEAD-CLAMP", ""}, {"VISIT-GUARD", ""}, {"BLOCK-SELECT", ""}, {"STORED-OFFSET-SOURCE", ""}, {"BLOCK-CURSOR", ""}, {"LOOP-BOUND-AGREE", ""}, {"RESET-COMPLETE", ""}, {"ESCAPE-FRESH", ""}},
 	})
 	prop(&Property{
 		ID:          "C08",
@@ -148,7 +148,7 @@ func init() {
 		Level:       "Static rules deciding agreement clauses for every input: the writer and the reader of each of the 11 on-disk records use the same sequence of primitives (kinds, widths, loop structure, byte order; tail-first trailers reversed), every section the loader parses is present on every writer path or skipped under a condition the loader also tests, layout adjacency assumptions hold, the in-memory image is the written bytes, WriteTo returns data+footer length. Partial: identical ANSWERS after load are a value property.",
 		Explanation: "WIRE-AGREE extracts, from the type-checked AST, the source-ordered sequence of wire primitives (binary.Write/PutUvarint/writeUvarints/PutUintN/raw Write vs binary.Uvarint/UintN/raw Data.Read) of each writer and reader region with loops as nested units and compares the 11 pairs (builder and merger writers must also agree with each other; footer fields must correspond by name; parseFooter's offsets must form a contiguous tail of footerLen bytes with widths matching their decodes). SECTION-PRESENT proves by dominance that load() always runs the three section loaders and that each section is written on every successful path of both data-section writers, or skipped exactly on the zero-document branch the loader also guards. ADJACENCY, MEM-IMAGE and LEN-RETURN pin the implicit layout assumptions, the builder's memory image and the byte counts. EMPTY-SAFE forbids constant indexing of variable-length tables without a length test (empty segments must load and merge).",
 		NotCovered:  "identical answers after load (value property); file-backed vs memory-backed look-ahead near the end of data (layout arithmetic)",
-		Uses:        []RuleUse{{"EMPTY-SAFE", ""}, {"WIRE-AGREE", ""}, {"SECTION-PRESENT", ""}, {"ADJACENCY", ""}, {"MEM-IMAGE", ""}, {"LEN-RETURN", ""}, {"TAIL-READ-BOUNDED", ""}, {"DV-SECTION-COMPLETE", ""}, {"PER-FIELD-COMPLETE", ""}, {"ESCAPE-FRESH", ""}},
+		Uses:        []RuleUse{{"TRAILER-ROLES", ""}, {"EMPTY-SAFE", ""}, {"WIRE-AGREE", ""}, {"SECTION-PRESENT", ""}, {"ADJACENCY", ""}, {"MEM-IMAGE", ""}, {"LEN-RETURN", ""}, {"TAIL-READ-BOUNDED", ""}, {"DV-SECTION-COMPLETE", ""}, {"PER-FIELD-COMPLETE", ""}, {"ESCAPE-FRESH", ""}},
 	})
 	prop(&Property{
 		ID:          "C10",
@@ -157,7 +157,7 @@ func init() {
 		Level:       "Static freeze of the format: every layout-defining constant (by folded value at its use site), every writer's and reader's primitive sequence incl. byte order and carried fields, the codec, the CRC polynomial and the versions of the embedded serialisations equal the pinned reference. Detects symmetric writer+reader changes that round-trip. Partial: arithmetic inside encoders beyond its constants, and roaring/vellum/zstd serialisations (pinned by go.mod, compared) are not analysed.",
 		Explanation: "FMT-CONST compares 27 named format constants, ~35 use-site constants (block size 128 at both coders and the reader's divisor; doc-value chunk arguments (1024,0,0) at three sites; chunk mode 1025 at New/merge; getChunkSize's bounds; bit-level encoder constants; termSeparator 0xff) and the roaring/vellum/compress versions with golden/format_v2.json. FMT-SEQ compares the wire signature of 33 writer/reader functions with the golden ones (this catches symmetric changes WIRE-AGREE accepts by construction). FMT-CODEC pins zstd EncodeAll/DecodeAll as the only codec; CRC-UPDATE pins CRC-32 IEEE. The compression level is reported, not gated (any level is readable by the reference reader). Optional emissions of writers ({…}) are part of the compared signature: an early successful return before an emission makes the rest optional, exactly like an if-block.",
 		NotCovered:  "roaring/vellum serialisation internals (versions pinned and compared); the arithmetic of the encoders beyond their constants",
-		Uses:        []RuleUse{{"FMT-CONST", ""}, {"FMT-SEQ", ""}, {"FMT-CODEC", ""}, {"CRC-UPDATE", ""}, {"WIRE-AGREE", ""}, {"DV-SEPARATOR", ""}},
+		Uses:        []RuleUse{{"TRAILER-ROLES", ""}, {"FMT-CONST", ""}, {"FMT-SEQ", ""}, {"FMT-CODEC", ""}, {"CRC-UPDATE", ""}, {"WIRE-AGREE", ""}, {"DV-SEPARATOR", ""}},
 	})
 }
 
@@ -169,7 +169,7 @@ func init() {
 		Level:       "Static rules deciding named NECESSARY conditions of the behaviour, not the behaviour: writer and reader derive the chunk size from the same three quantities and index chunks the same way; the location byte-count prefix counts exactly the quantities that are encoded; _id first / sorted field order; sibling literals agree; the reused encoders are fully reset. The equality of postings, frequencies, norms and locations for every batch is a value property and is NOT decided.",
 		Explanation: "CHUNK-AGREE checks the getChunkSize call of the builder (s.chunkMode, GetCardinality of the very bitmap writePostings serialises, len(s.results) — and that newWithChunkMode records the same mode and length in the footer) against the reader's (footer.chunkMode, GetCardinality of the bitmap just deserialised, footer.numDocs), that both encoders are re-sized with the result, and that both sides compute the chunk index as docNum / chunkSize (CHUNK-INDEX for the encoders). LENPREFIX-AGREE compares, as a multiset of normalised expression trees, the four arguments of totalUvarintBytes with the four values encoded per location and pins numUvarintBytes' shape. FIELD-ORDER, SIBLING-LITERAL, RESET-COMPLETE (the shared encoders) and ONEHIT-AWARE complete the set.",
 		NotCovered:  "the two-pass accumulation arithmetic, completeness of terms/postings, norms, terms with more than 1024 documents (values)",
-		Uses:        []RuleUse{{"CHUNK-AGREE", ""}, {"CHUNK-INDEX", ""}, {"LENPREFIX-AGREE", ""}, {"FIELD-ORDER", ""}, {"SIBLING-LITERAL", ""}, {"RESET-COMPLETE", ""}, {"ESCAPE-FRESH", ""}},
+		Uses:        []RuleUse{{"APPEND-RESULT-USED", ""}, {"CHUNK-AGREE", ""}, {"CHUNK-INDEX", ""}, {"LENPREFIX-AGREE", ""}, {"FIELD-ORDER", ""}, {"SIBLING-LITERAL", ""}, {"RESET-COMPLETE", ""}, {"ESCAPE-FRESH", ""}},
 	})
 	prop(&Property{
 		ID:          "C02",
@@ -178,7 +178,7 @@ func init() {
 		Level:       "Static rules deciding named NECESSARY conditions: every document number written is the remapped one, location field ids use the merged map, doc values are re-added under new numbers and dropped ones skipped, the parallel per-iterator slices come from one filtered result, the byte-copy path is taken only for identical field lists without deletions, 1-hit encoding only under its full conjunction, chunk size from the footer quantities, terms inserted only with postings. Observational equality with a rebuild is a value property and is NOT decided.",
 		Explanation: "REMAP (mergeTermFreqNormLocs, buildMergedDocVals visitor, persistMergedRestField), CHUNK-AGREE (prepareNewTerm traced through its unique call chain to the values stored in the merged footer), LENPREFIX-AGREE, FASTPATH-GUARD (+ mergeFields compares every field of every segment), INSERT-GUARD, ONEHIT-GUARD, FIELD-ORDER (mergeFields), STORED-OFFSET-SOURCE, FIELDID-LANE, DV-SECTION-COMPLETE.",
 		NotCovered:  "k-way enumeration order, the re-encoding arithmetic, correctness of the stored-field byte copy (values)",
-		Uses:        []RuleUse{{"RANGE-INDEX-BASE", ""}, {"ITER-SCRATCH", ""}, {"REMAP", ""}, {"CHUNK-AGREE", ""}, {"LENPREFIX-AGREE", ""}, {"FASTPATH-GUARD", ""}, {"INSERT-GUARD", ""}, {"ONEHIT-GUARD", ""}, {"FIELD-ORDER", ""}, {"STORED-OFFSET-SOURCE", ""}, {"BLOCK-CURSOR", ""}, {"FIELDID-LANE", ""}, {"DV-SECTION-COMPLETE", ""}, {"PER-FIELD-COMPLETE", ""}, {"LOOP-BOUND-AGREE", ""}, {"PARALLEL-APPEND", ""}, {"REMAP-TABLE-READONLY", ""}, {"TERM-BOUNDARY", ""}, {"ENUM-SKIP-GUARD", ""}, {"RESET-COMPLETE", ""}},
+		Uses:        []RuleUse{{"APPEND-RESULT-USED", ""}, {"RANGE-INDEX-BASE", ""}, {"ITER-SCRATCH", ""}, {"REMAP", ""}, {"CHUNK-AGREE", ""}, {"LENPREFIX-AGREE", ""}, {"FASTPATH-GUARD", ""}, {"INSERT-GUARD", ""}, {"ONEHIT-GUARD", ""}, {"FIELD-ORDER", ""}, {"STORED-OFFSET-SOURCE", ""}, {"BLOCK-CURSOR", ""}, {"FIELDID-LANE", ""}, {"DV-SECTION-COMPLETE", ""}, {"PER-FIELD-COMPLETE", ""}, {"LOOP-BOUND-AGREE", ""}, {"PARALLEL-APPEND", ""}, {"REMAP-TABLE-READONLY", ""}, {"TERM-BOUNDARY", ""}, {"ENUM-SKIP-GUARD", ""}, {"RESET-COMPLETE", ""}},
 	})
 	prop(&Property{
 		ID:          "C07",
